@@ -12,7 +12,7 @@ COQ_IMPORTS = "Model.AnnotationOps Check.AnnCommon"
 SHARD = 60
 RULE = ("string_generator: first N <= 800 values with skip collections given as list or set (members among the "
         "first 800 words, incl. 'A', 'Z', 'AA', 'ZZ'); int_generator; pairwise; new_track on annotations whose segment "
-        "already holds generated names ('0','1',...), the candidate, or prefixed names; up to seven tracks on one segment from pools of names that parse to the same integers ('0' / '00', '1' / '01', 'T0' / 'T00'); to_annotation with each "
+        "already holds generated names ('0','1',...), the candidate, or prefixed names; up to seven tracks on one segment from pools of names that parse to the same integers ('0' / '00', '1' / '01', 'T0' / 'T00'); prefixes with format characters ('%', '%s', 'T%d', '{}') in 15%; to_annotation with each "
         "generator kind; random_subsegment refusing a fixed duration that exceeds the segment by less than a microsecond; random_subsegment with np.random.random replaced by a stub returning k/1024 (so the model "
         "computes the same value) and random_segment under 5 seeds; non-trivial = skip non-empty / candidate taken / "
         "min_duration given")
